@@ -105,7 +105,7 @@ def script_line(c, sandbox):
     raise MachineryError("no script form for " + k)
 
 
-def run_history(exe, calls, sandbox_root, hid, setup=(), argv=(), env=(), ls_after=("open", "write", "pwrite"), timeout=60, native_preopen=False):
+def run_history(exe, calls, sandbox_root, hid, setup=(), argv=(), env=(), ls_after=("open", "write", "pwrite"), timeout=60, native_preopen=False, bad_preopens=False):
     """Run one history in a fresh sandbox and process.  Returns (records per call incl. ls, stderr, rc)."""
     sb = os.path.join(sandbox_root, "sb%s" % hid)
     shutil.rmtree(sb, ignore_errors=True)
@@ -133,7 +133,8 @@ def run_history(exe, calls, sandbox_root, hid, setup=(), argv=(), env=(), ls_aft
     sf = os.path.join(sandbox_root, "script%s.txt" % hid)
     open(sf, "w").write("\n".join(lines) + "\n")
     rc, out, err = run([exe, sb, sf, *argv, "--", *env], timeout=timeout,
-                       env=dict({"ASAN_OPTIONS": "detect_leaks=0:abort_on_error=0:exitcode=97"}, **({"VERIF_PREOPEN_NATIVE": "1"} if native_preopen else {})))
+                       env=dict({"ASAN_OPTIONS": "detect_leaks=0:abort_on_error=0:exitcode=97"}, **({"VERIF_PREOPEN_NATIVE": "1"} if native_preopen else {}),
+                                **({"VERIF_BAD_PREOPENS": "1"} if bad_preopens else {})))
     recs = []
     for l in out.splitlines():
         try:
